@@ -97,7 +97,11 @@ func (t WebsocketTransport) startReader() {
 				return
 			}
 			if len(tmp) > 0 {
-				t.queue <- tmp
+				select {
+				case t.queue <- tmp:
+				case <-t.closeCtx.Done():
+					return
+				}
 			}
 		}
 	}()
@@ -160,10 +164,9 @@ func (t *WebsocketTransport) LogTraffic(logFile io.Writer) {
 
 func (t *WebsocketTransport) cleanup(code websocket.StatusCode) error {
 	var err error
-	if t.queue != nil {
-		close(t.queue)
-		t.queue = nil
-	}
+	// The queue is not closed: the reader goroutine may still be delivering a message (a send on a closed
+	// channel would panic); readers and the reader goroutine are released by cancelling closeCtx below.
+	t.queue = nil
 	if t.wsConn != nil {
 		err = t.wsConn.Close(websocket.StatusGoingAway, "Done")
 		t.wsConn = nil
